@@ -103,12 +103,20 @@ def stale(a_s, a_e, a_p, b_s, b_e, b_p, c_s, c_e, link, rev, flags, paths, pydir
         o.test_path = [(p, '') for p in paths]
         o.prefix = [(p + '/', '') for p in paths]
     fos = MutOS(tree)
-    saved = F.os
+    saved = F.os, F.find_suites
     F.os = fos
+    at_discovery = []
+
+    def fake_find_suites(options, accept=None):
+        # discovery starts here: whatever is deleted must have been deleted by now
+        at_discovery.append(len(fos.calls))
+        return []
+    F.find_suites = fake_find_suites
     try:
-        F.remove_stale_bytecode(o)
+        # the real entry point: find_tests() cleans up, then discovers
+        F.find_tests(o, None)
     finally:
-        F.os = saved
+        F.os, F.find_suites = saved
     with untraced():
         ignore = set(DEFAULT_IGNORE)
         if flags[:1] == ['--ignore_dir']:
@@ -119,7 +127,9 @@ def stale(a_s, a_e, a_p, b_s, b_e, b_p, c_s, c_e, link, rev, flags, paths, pydir
         unl = [c_[1] for c_ in fos.calls if c_[0] == 'unlink']
         other = [c_ for c_ in fos.calls if c_[0] != 'unlink']
         why = None
-        if other:
+        if at_discovery != [len(fos.calls)]:
+            why = 'discovery started %r time(s) with %r of %d file-system changes done: the clean-up must come before discovery' % (len(at_discovery), at_discovery, len(fos.calls))
+        elif other:
             why = 'mutating call other than unlink of an existing file: %r' % (other[:3],)
         elif len(unl) != len(set(unl)):
             why = 'file unlinked twice: %r' % (unl,)
@@ -153,7 +163,7 @@ def _v(**kw):
 
 SPEC = {
     'property': 'C15',
-    'encoded': ['zope.testrunner.find.remove_stale_bytecode', 'find.walk_with_symlinks', 'options.get_options (post-processing of -k / --usecompiled, ignore_dir)'],
+    'encoded': ['zope.testrunner.find.find_tests (clean-up before discovery)', 'zope.testrunner.find.remove_stale_bytecode', 'find.walk_with_symlinks', 'options.get_options (post-processing of -k / --usecompiled, ignore_dir)'],
     'files': ['src/zope/testrunner/find.py', 'src/zope/testrunner/options.py'],
     'stubs': ['find.os -> in-memory tree (walk honours in-place pruning, symbolic enumeration order, does not descend into symlinked directories; unlink removes '
               'the file from the tree; every mutating call recorded)', 'options through the real get_options on a concrete argv (evaluated untraced), test_path injected'],
